@@ -87,6 +87,13 @@ ADDED = {
     "C19": "Also: __exit__ resets the deferral state; a token is inserted before the metadata that refers to it.",
 }
 
+TECH_OVERRIDE = {
+    "C02": "TERM/OFFSET/TABLE/SIBLING rules: symbolic inverse of to_pack_list/from_unpack_list as wire terms, abstract offset runs of every Packer on the CFG, exhaustive finite-domain decision tables (bit masks: all 256 bytes; connection types) evaluated by an AST interpreter of the checker, symbolic byte-layout algebra for the cell codec (parametric in all values), name grammar + documentation table",
+    "C13": "per-path symbolic evaluation of the introduction/puncture functions (locals substituted, attribute stores versioned) with DECISION tables over the 8 combinations of (WAN known, LAN known, same NAT); MUSTPASS on sends",
+    "C18": "POLY: exact integer-polynomial normal forms obtained by path-wise symbolic substitution of FP2Value's method bodies, compared with the reference arithmetic of fractions over Z[x]/(x^2+x+1); loop invariants for intpow/_modinv; exponent-vector comparison of the range-proof verification equations; CFG pairing rule for consumed challenges; SIBLING codec arity",
+    "C20": "abstract interpretation (own evaluator over the syntax trees; names, formats and values are opaque symbols) of the code generator, the interpreter and the dataclass front end on a bounded family of abstract payload definitions; the generated source text is parsed and evaluated symbolically, never executed; CFG no-skip rule for convert_to_payload",
+}
+
 NOT_BUILT_REASON = "check not built yet (build in progress; see DESIGN.md section 3)"
 
 
@@ -100,8 +107,11 @@ def main() -> None:
             continue
         mod = importlib.import_module(f"sa.props.{pid.lower()}")
         tech, text, note = TEXT[pid]
-        if pid in ADDED:
-            text = text + " " + ADDED[pid]
+        tech = TECH_OVERRIDE.get(pid, tech + "; decided on CFG facts (dominance as reachability with cuts), alias expansion and reaching definitions after load-time normalisation")
+        # what is decided = the module's own EXPLANATION (kept next to the rules); what is not decided = the reviewed sentence of TEXT
+        import re as _re
+        m_ = _re.search(r"(Does not decide|Does NOT decide|Takes the classifier)[^$]*$", text)
+        text = getattr(mod, "EXPLANATION", text).strip() + (" " + m_.group(0).strip() if m_ else "")
         checks.append({
             "property_id": pid,
             "quick_cmd": f"/venv/bin/python -m sa.check {pid}",
@@ -124,12 +134,16 @@ def main() -> None:
             "add_only": True,
         },
         "engines": [{"name": "sa", "path": "/verif/sa", "serves_properties": [c["property_id"] for c in checks],
-                     "kind_free_text": "repository-specific static analyser (stdlib ast): class/MRO model, statement CFG with "
-                                       "exceptional edges and reachability-with-cuts (dominance), def-use fingerprints, decision "
-                                       "tables, wire-term and offset interpreters, polynomial normal forms; never imports or runs ipv8"}],
+                     "kind_free_text": "repository-specific static analyser (stdlib ast): load-time behaviour-preserving normalisation "
+                                       "(alpha-renaming, inlining of new helpers, alias elimination), class/MRO model, statement CFG with "
+                                       "exceptional edges and reachability-with-cuts (dominance), def-use / reaching definitions, decision "
+                                       "tables, wire-term, offset and byte-layout interpreters, polynomial normal forms, abstract "
+                                       "interpretation of the payload code generator; never imports or runs ipv8"}],
         "checks": checks,
         "notes": "Exit codes: 0 held / 1 VIOLATION / 2 ANALYSIS-ERROR (anchor lost, unknown syntax, floor). Known findings and "
-                 "fixed defects: /verif/known_findings.txt. Thorough = quick + self-test witnesses (in-memory mutants must fire).",
+                 "fixed defects: /verif/known_findings.txt. Thorough = quick + self-test (in memory: hand-written witnesses and the confirmed seeded "
+                 "changes under /verif/seeded must be reported, the behaviour-preserving refactorings under /verif/refactors must stay silent) "
+                 "+ who-may-write scan over doc/stresstest/scripts.",
         "not_applicable": na,
     }
     with open(os.path.join(VERIF, "MANIFEST.json"), "w", encoding="utf-8") as fh:
